@@ -225,6 +225,14 @@ async fn run_paged(args: &[String]) -> (String, Option<String>) {
                 let (t, used) = match ownber::read(&inbuf, &mut min, 0) { ownber::Own::Ok(t, u) => (t, u), _ => break };
                 inbuf.drain(..used);
                 let k = match &t.payload { PL::C(k) => k.clone(), _ => continue };
+                // the Delete issued through the stream's handle after the search (F34): does it carry the control parked on that handle?
+                if k.len() >= 2 && k[1].id == 10 {
+                    let idd = match &k[0].payload { PL::P(v) => ownber::twos(v).unwrap_or(0) as i64, _ => 0 };
+                    let has = k.len() == 3 && show_tree(&k[2]).contains(&hex(b"1.2.840.9999"));
+                    log2.lock().unwrap().push(format!("DEL:{}", if has { 1 } else { 0 }));
+                    let _ = server.write_all(&done_msg(idd, 0, &[], vec![])[..]).await;       // (a SearchResultDone-shaped LDAPResult is fine for the client's parser)
+                    continue;
+                }
                 if k.len() < 2 || k[1].id != 3 { continue; }
                 let id = match &k[0].payload { PL::P(v) => ownber::twos(v).unwrap_or(0) as i64, _ => 0 };
                 let params = show_tree(&k[1]);
@@ -265,11 +273,23 @@ async fn run_paged(args: &[String]) -> (String, Option<String>) {
             l.streaming_search_with(ads, "dc=x", Scope::Subtree, "(a=b)", vec!["cn"]).await }
         else { l.streaming_search_with(PagedResults::new(size), "dc=x", Scope::Subtree, "(a=b)", vec!["cn"]).await };
     let mut st = match started { Ok(s) => s, Err(ldap3::LdapError::AdapterInit(_)) => return ("rejected".into(), if with_paged { None } else { Some("a search without a caller paging control was rejected".into()) }), Err(e) => return (format!("starterr:{}", err_class(&e)), None) };
+    // F34: a control (and search options) parked on the stream's own handle before the pages are read must reach the next operation invoked
+    // on that handle - after the search, however many page switches lie in between (every fourth page size, not with early finish)
+    let parked = size % 4 == 0 && stop.is_none() && !with_paged;
+    if parked { st.ldap_handle().with_controls(RawControl { ctype: "1.2.840.9999".into(), crit: false, val: None }); st.ldap_handle().with_search_options(ldap3::SearchOptions::new().sizelimit(77)); }
     let mut items: Vec<String> = vec![]; let mut end = "active";
     for _ in 0..stop.unwrap_or(10000) { match st.next().await { Ok(Some(re)) => { let s = show_entry(&re); items.push(if s.starts_with('r') { format!("r{}", String::from_utf8_lossy(&unhex(&s[1..])).trim_start_matches("ldap://t").to_string()) } else { s }); } Ok(None) => { end = "done"; break; } Err(_) => { end = "error"; break; } } }
     let st_end = st.state();
     let res = st.finish().await;
     settle().await;
+    let mut parked_lost = false;
+    if parked && end == "done" {
+        let _ = tokio::time::timeout(std::time::Duration::from_secs(2), st.ldap_handle().delete("cn=after")).await;
+        settle().await;
+        let mut lg = log.lock().unwrap();
+        parked_lost = !lg.iter().any(|e| e == "DEL:1");
+        lg.retain(|e| !e.starts_with("DEL:"));
+    }
     let paged_in_final = res.ctrls.iter().any(|c| c.1.ctype == "1.2.840.113556.1.4.319");
     let others = res.ctrls.iter().filter(|c| c.1.ctype != "1.2.840.113556.1.4.319").map(|c| c.1.ctype.trim_start_matches("1.3.").to_string()).collect::<Vec<_>>().join("+");
     let left = { let m = table.lock().unwrap(); let g = gauges.lock().unwrap(); let mut ids: Vec<i32> = m.1.iter().copied().collect(); ids.sort();
@@ -303,6 +323,7 @@ async fn run_paged(args: &[String]) -> (String, Option<String>) {
             if f[0] != size.to_string() || f[1] != want_ck || f[2] != nother.to_string() || f[3] != "1" { oracle.get_or_insert(format!("request {} carries paging size/cookie/other-controls/same-parameters {} but must carry {}/{}/{}/1", i, e, size, want_ck, nother)); }
         }
         if paged_in_final { oracle.get_or_insert("the final result still carries the paging control".into()); }
+        if parked_lost { oracle.get_or_insert("a control set on the stream's own handle before the pages were read did not reach the next operation invoked on that handle".into()); }
     }
     (out, oracle)
 }
